@@ -113,15 +113,16 @@ def case_mtl(sp, tier, family):
         old["q0"] = set_grad(prog["q0"], "q0")
     A = AStar()
     kw = {}
+    empty_shared = family == "containers" and choice(2, "shared_params_empty") == 1
     if explicit:
         from harness.C01 import as_container
-        kw = dict(tasks_params=[as_container([prog[n] for n in ps], kind) for ps in tasks_params], shared_params=as_container([prog["p0"], prog["p1"]], kind))
+        kw = dict(tasks_params=[as_container([prog[n] for n in ps], kind) for ps in tasks_params], shared_params=as_container([] if empty_shared else [prog["p0"], prog["p1"]], kind))
     mtl_backward([prog[n] for n in losses], [prog[f] for f in feats] if len(feats) > 1 or choice(2, "features_as_list") else prog[feats[0]], A,
                  parallel_chunk_size=k, **kw)
     obs = []
     def cex(model):
         return dict(kind="autojac_mtl", spec=spec_json(spec), losses=losses, features=feats, tasks_params=tasks_params if explicit else None,
-                    shared_params=["p0", "p1"] if explicit else None, expected_tasks_params=tasks_params, expected_shared=["p0", "p1"],
+                    shared_params=([] if empty_shared else ["p0", "p1"]) if explicit else None, expected_tasks_params=tasks_params, expected_shared=[] if empty_shared else ["p0", "p1"],
                     jac=jac_values(model, prog), v=cex_values(model, v=[o._flat() for o in A.outs])["v"], chunk=k, container=["list", "tuple", "generator", "iterator"][kind], dtype="float64" if f64 else "float32",
                     old={kk: (cex_values(model, g=g)["g"] if g is not None else None) for kk, g in old.items()})
     # --- task specific parameters
@@ -142,6 +143,10 @@ def case_mtl(sp, tier, family):
         obs.append(Ob("task_param_receives_sum_of_own_task_gradients", eq_all(g, [(before[c] if before else R(0)) + exp[c] for c in range(len(exp))]), cex))
     # --- shared parameters
     shared = ["p0", "p1"]
+    if empty_shared:
+        # a frozen trunk: nothing to aggregate, the shared leaves keep their .grad
+        same = all((grad_list(prog[n]) is None) if old.get(n) is None else z3.is_true(z3.simplify(eq_all(grad_list(prog[n]), old[n]))) for n in shared)
+        return obs + [Ob("frozen_trunk_leaves_shared_grads_alone", bool(same) and len(A.seen) == 0, cex)]
     if len(A.seen) != 1:
         return obs + [Ob("aggregator_called_once", False, cex)]
     M = rows_of(A.seen[0])
